@@ -9,6 +9,8 @@ on spelling, statement position, operand order or branch order rather than on be
   commute  operands of exact-commutative primitive operations swapped (a+b, a*b, a==b, a<b -> b>a ...)
   flip     `if c {A} else {B}`  ->  `if !c {B} else {A}`
   arms     arms of matches over disjoint enum-variant patterns reversed
+  unlet    an immutable temporary used once, first thing in the next statement, inlined there (inverse of letify)
+  letify   the first-evaluated nested call of a statement hoisted into a fresh temporary `let`
 """
 import copy, os, sys
 from . import facts as F, core, rules, names
@@ -130,7 +132,149 @@ def t_arms(fx):
     return n
 
 
-T = {"alpha": t_alpha, "noise": t_noise, "commute": t_commute, "flip": t_flip, "arms": t_arms}
+def t_letify(fx):
+    """`stmt(f(g(x), ..))`  ->  `let tmp = g(x); stmt(f(tmp, ..))`: the first-evaluated nested call of a statement's
+    outermost call is hoisted into a fresh immutable temporary (values only: no references, no closures inside)."""
+    n = 0
+
+    def strip_(e):
+        while e is not None and e.get("k") == "blk" and not e["b"]["stmts"] and e["b"]["tail"] is not None:
+            e = e["b"]["tail"]
+        return e
+
+    def top_call(st):
+        k = st.get("k")
+        if k == "let" and st.get("init") is not None and st.get("els") is None:
+            return strip_(st["init"])
+        if k in ("assign", "assignop"):
+            return strip_(st["r"])
+        if k in ("call", "mcall"):
+            return st
+        return None
+
+    def hoistable(a):
+        a0 = strip_(a)
+        if a0 is None or a0.get("k") not in ("call", "mcall") or a0.get("mac") or (a0.get("f") or {}).get("mac"):
+            return False
+        t = a0.get("t")
+        ty = fx["types"][t] if t is not None else "&"
+        if ty.startswith("&") or ty in ("()", "!") or "Iter" in ty or "iter::" in ty or "Map<" in ty or "Zip<" in ty or "Chunks" in ty or "impl " in ty or "{closure" in ty:
+            return False
+        for x in _walk(a0):
+            if x.get("k") in ("closure", "ret", "break", "continue", "assign", "assignop", "letx"):
+                return False
+        return True
+    for fn in fx["fns"].values():
+        for b in list(_walk(fn.get("body"))):
+            if b.get("k") != "block":
+                continue
+            new = []
+            for st in b["stmts"]:
+                tc = top_call(st)
+                done = False
+                if tc is not None and tc.get("k") in ("call", "mcall") and not tc.get("mac") and not (tc.get("f") or {}).get("mac"):
+                    slots = ([("recv", None)] if tc["k"] == "mcall" else []) + [("args", i) for i in range(len(tc["args"]))]
+                    for (key, i) in slots:
+                        a = tc[key] if i is None else tc[key][i]
+                        a0 = strip_(a)
+                        if a0 is None:
+                            break
+                        if a0.get("k") in ("local", "lit", "path", "field"):
+                            continue        # a place / constant: evaluating it has no effect, look at the next operand
+                        if a0.get("k") == "ref" and strip_(a0["x"]) is not None and strip_(a0["x"]).get("k") in ("local", "field"):
+                            continue
+                        if hoistable(a):
+                            n += 1
+                            hid = 7000000 + n
+                            t = a0.get("t")
+                            new.append({"k": "let", "pat": {"k": "bind", "name": "_tmp%d" % n, "hid": hid, "mode": "BindingMode(No, Not)", "t": t},
+                                        "init": a0, "els": None, "line": st.get("line")})
+                            loc = {"k": "local", "name": "_tmp%d" % n, "hid": hid, "t": t, "line": st.get("line")}
+                            if i is None:
+                                tc[key] = loc
+                            else:
+                                tc[key][i] = loc
+                        break
+                new.append(st)
+            b["stmts"] = new
+    return n
+
+
+def t_unlet(fx):
+    """`let t = e; stmt(.. t ..)`  ->  `stmt(.. e ..)` for an immutable temporary used exactly once, in the next statement,
+    outside any closure or loop of that statement, and evaluated there before anything else that has an effect."""
+    n = 0
+    for fn in fx["fns"].values():
+        body = fn.get("body")
+        if body is None:
+            continue
+        uses = {}
+        for x in _walk(body):
+            if x.get("k") == "local":
+                uses[x["hid"]] = uses.get(x["hid"], 0) + 1
+        for b in list(_walk(body)):
+            if b.get("k") != "block":
+                continue
+            i = 0
+            while i < len(b["stmts"]):
+                st = b["stmts"][i]
+                nxt = b["stmts"][i + 1] if i + 1 < len(b["stmts"]) else b["tail"]
+                ok = (st.get("k") == "let" and st.get("init") is not None and st.get("els") is None and st["pat"].get("k") == "bind"
+                      and "Mut" not in str(st["pat"].get("mode")) and not str(st["pat"].get("mode", "")).startswith("BindingMode(Ref")
+                      and uses.get(st["pat"]["hid"], 0) == 1 and nxt is not None)
+                if ok:
+                    init = st["init"]
+                    ty = fx["types"][st["pat"]["t"]] if st["pat"].get("t") is not None else "&"
+                    if ty.startswith("&") or any(x.get("k") in ("closure", "assign", "assignop", "ret", "break", "continue", "for", "loop", "if", "match") or x.get("mac") for x in _walk(init)):
+                        ok = False
+                if ok:
+                    # find the use: must be reachable from nxt without entering a closure / loop / branch, and be the first effectful operand
+                    hid = st["pat"]["hid"]
+                    found = [None]
+
+                    def visit(node, parent, key, idx):
+                        if found[0] is not None or not isinstance(node, dict):
+                            return "stop" if found[0] is not None else None
+                        k = node.get("k")
+                        if k == "local" and node.get("hid") == hid:
+                            found[0] = (parent, key, idx)
+                            return "stop"
+                        if k in ("closure", "for", "loop", "if", "match", "block"):
+                            return "blocked" if any(y.get("k") == "local" and y.get("hid") == hid for y in _walk(node)) else None
+                        order = {"mcall": ("recv", "args"), "call": ("args",), "bin": ("l", "r"), "un": ("x",), "ref": ("x",), "cast": ("x",),
+                                 "field": ("b",), "index": ("b", "i"), "tup": ("xs",), "let": ("init",), "assign": ("r",), "assignop": ("r",),
+                                 "blk": (), "struct": (), "array": ("xs",)}.get(k, ())
+                        for kk in order:
+                            v = node.get(kk)
+                            if isinstance(v, list):
+                                for j, e in enumerate(v):
+                                    r = visit(e, node, kk, j)
+                                    if r:
+                                        return r
+                                    if isinstance(e, dict) and e.get("k") in ("call", "mcall"):
+                                        return "blocked"       # something with a possible effect is evaluated before the use
+                            elif isinstance(v, dict):
+                                r = visit(v, node, kk, None)
+                                if r:
+                                    return r
+                                if v.get("k") in ("call", "mcall"):
+                                    return "blocked"
+                        return None
+                    visit(nxt, None, None, None)
+                    if found[0] is not None and found[0][0] is not None:
+                        parent, key, idx = found[0]
+                        if idx is None:
+                            parent[key] = init
+                        else:
+                            parent[key][idx] = init
+                        del b["stmts"][i]
+                        n += 1
+                        continue
+                i += 1
+    return n
+
+
+T = {"alpha": t_alpha, "noise": t_noise, "commute": t_commute, "flip": t_flip, "arms": t_arms, "letify": t_letify, "unlet": t_unlet}
 
 
 def run(which, repo="/repo", quiet=False, props=None):
